@@ -114,7 +114,7 @@ PROPS["C04"] = render_prop(
     "Go iterates maps in random order: in the model correspondence maps in range position have at most one entry; maps with several entries are checked by the native reference oracle up to the order of entries. Range over a non-ASCII string iterates bytes (modelled).",
     extra_streams=[REF_STREAM])
 PROPS["C05"] = render_prop(
-    "Theorems: Tag.SortedAttr is a permutation, sorted by the documented key (with < conditionals < range < remove < rest) and stable, with the weights taken from html/tag.go on every run; the owner of if/else/range stops after its directive (model); tied to the code by diffing every directive subset in random written order, plus the direct oracle that re-renders with permuted control attributes. Theorems sorted_order_irrelevant / render_order_irrelevant / execute_order_irrelevant: rewriting the attributes of any number of elements in another order (attributes of equal sort key keeping their relative order) changes neither output, result, name table nor call log of the model render, for every fuel, scope, writer and nesting position. The remove modes are additionally checked against natively computed expectations ('ref' stream).",
+    "Theorems: Tag.SortedAttr is a permutation, sorted by the documented key (with < conditionals < range < remove < rest) and stable, with the weights taken from html/tag.go on every run; the owner of if/else/range stops after its directive (model); tied to the code by diffing every directive subset in random written order, plus the direct oracle that re-renders with permuted control attributes. Theorems sorted_order_irrelevant / render_order_irrelevant / execute_order_irrelevant: rewriting the attributes of any number of elements in another order (attributes of equal sort key keeping their relative order) changes neither output, result, name table nor call log of the model render, for every fuel, scope, writer and nesting position. Theorem each_effect_once (Proofs/Compose.v): with + if + range + text + dynamic attributes on one element, in any written order, render exactly as the specification function spec_once (each evaluation once, in the documented order and scope). The remove modes are additionally checked against natively computed expectations ('ref' stream).",
     "'each effect exactly once' is checked through the call log of recording functions in the correspondence stream.",
     extra_streams=[REF_STREAM])
 PROPS["C06"] = render_prop(
